@@ -113,6 +113,39 @@ theorem valuesOKb_sound {o : Out} (h : valuesOKb o = true) : ValuesOK o := by
   · exact absurd h1 hnd
   · exact blockHypB_sound h1
 
+/-! ### the hypothesis in two parts, for the observer at the render boundary
+
+`blockHypB` = everything but the `#` clause ∧ no `#` in a value of a class-header site.  The second
+part is a limit of the block automaton, not an invariant of the generator: the automaton reads a
+`#` in a header line as the start of a comment, although a type hint may legitimately carry one
+inside a string literal (`class R(RootModel[Literal['#']]):`).  Renderings with such a value are
+outside the scope of the class theorems (they are counted, and covered by `ast.parse` only); the
+first part is what every written rendering must satisfy. -/
+
+def wordHypExceptHashB (v : List Char) : Bool :=
+  noNLB v && v.head? != some ' ' && !startsClass v
+
+def blockHypExceptHashB (e : Expr) (v : List Char) : Bool :=
+  (match slotKind e with
+   | .word _ => wordHypExceptHashB v
+   | .line => noNLB v
+   | .doc => docShape false v
+   | .none => true) && (!boneLine e || noBreakB v)
+
+def headerHashB (e : Expr) (v : List Char) : Bool :=
+  match slotKind e with
+  | .word true => v.contains '#'
+  | _ => false
+
+theorem blockHypB_split (e : Expr) (v : List Char) :
+    blockHypB e v = (blockHypExceptHashB e v && !headerHashB e v) := by
+  unfold blockHypB blockHypExceptHashB headerHashB wordHypB wordHypExceptHashB
+  cases slotKind e with
+  | word h => cases h <;> simp [Bool.and_comm, Bool.and_left_comm, Bool.and_assoc]
+  | line => simp
+  | doc => simp
+  | none => simp
+
 /-- the final state of the block automaton on a text -/
 def blockOf (text : List Char) : BSt := blockAuto.run BSt.init text
 
